@@ -665,6 +665,11 @@ def h_serial_tx2(ctx, which, bits1, bits2, twice2):
     return "ok"
 
 
+def _two_receivers(ctx, which):
+    from harness.c19_deframe import h_two_receivers
+    return h_two_receivers(ctx, which)
+
+
 def cases(tier):
     cs = [Case("luba-rx", h_serial_rx, {"which": "luba"}), Case("sci-rx", h_serial_rx, {"which": "sci"}),
           Case("tridonic-rx", h_tridonic_rx, {}, install=rigs.install_tridonic_structs),
@@ -679,6 +684,9 @@ def cases(tier):
                install=rigs.install_tridonic_structs),
           Case("hasseb-width-seq", h_hasseb_width, {"via": "sequence"}, width=128,
                install=rigs.install_tridonic_structs),
+          # receive side with two gateways of a kind open at once: each packet decodes to the frame it denotes
+          Case("luba-rx-two-gateways", _two_receivers, {"which": "luba"}),
+          Case("sci-rx-two-gateways", _two_receivers, {"which": "sci"}),
           Case("luba-width-seq", h_serial_width, {"which": "luba", "via": "sequence"}, width=128),
           Case("sci-width-seq", h_serial_width, {"which": "sci", "via": "sequence"}, width=128)]
     for b1, b2, tw in ((24, 16, False), (16, 24, False), (24, 16, True), (16, 16, False)):
